@@ -22,6 +22,9 @@ def kogge_stone(a, b, cin=0):
     prop_orig = a ^ b
     prop_bits = [i for i in prop_orig]
     gen_bits = [i for i in a & b]
+    # the carry in enters the prefix network as part of the bit 0 generate
+    cin = pyrtl.as_wires(cin)
+    gen_bits[0] = gen_bits[0] | (prop_bits[0] & cin)
     prop_dist = 1
 
     # creation of the carry calculation
@@ -35,7 +38,7 @@ def kogge_stone(a, b, cin=0):
 
     # assembling the result of the addition
     # preparing the cin (and conveniently shifting the gen bits)
-    gen_bits.insert(0, pyrtl.as_wires(cin))
+    gen_bits.insert(0, cin)
     return pyrtl.concat_list(gen_bits) ^ prop_orig
 
 
